@@ -70,6 +70,16 @@ func execHist(spec *RunSpec, st *Stats) *Violation {
 		panic("hist spec must have exactly one client")
 	}
 	ops := spec.Clients[0]
+	if strings.HasPrefix(spec.Note, "gap run, 2^15") {
+		refModel.quiet = true
+		defer func() { refModel.quiet = false }()
+	}
+	if len(ops) > 300 {
+		// the worker runs with the automatic collector off (collections are simulator events at
+		// fixed run indexes); a history of thousands of calls allocates gigabytes by itself, so
+		// it gets the collector back for its duration
+		defer debug.SetGCPercent(debug.SetGCPercent(100))
+	}
 	env := newEnv(spec.Cfg, spec.Docs)
 	trees := map[int]*treeHandle{}
 	fps := map[*treeHandle]uint64{}
@@ -392,7 +402,7 @@ func genHistSpec(p *histParams, c *Corpus, run int) *RunSpec {
 	spec := &RunSpec{Property: p.prop, Engine: "hist", VerifSeed: p.verifSeed, Run: run, RunSeed: fmt.Sprintf("%#x", seed), Cfg: cfg, Docs: docs, Note: note}
 	if rg := root.Split("gap-run"); rg.Chance(1, 50) {
 		// c14: always a storm of failing calls; otherwise a storm in half of the fault-injecting runs
-		genGapRun(rg, spec, c14 || faulty && rg.Chance(1, 2))
+		genGapRun(rg, spec, c14 || faulty && rg.Chance(1, 2), p.tier == "thorough")
 		return spec
 	}
 	var ops []Op
@@ -510,7 +520,7 @@ var gapSizes = []int{0, 1, 2, 3, 7, 8, 9, 15, 16, 17, 31, 32, 33, 63, 64, 65, 12
 // storm: the calls in between all meet a failing destination (a storm of failed calls on one
 // instance: whatever a failing call does not give back - a slot, a lock, a pooled buffer, a
 // counter - adds up until the instance stops answering or answers wrongly).
-func genGapRun(r *Rng, spec *RunSpec, storm bool) {
+func genGapRun(r *Rng, spec *RunSpec, storm, thorough bool) {
 	nMain := len(spec.Docs)
 	if nMain > 3 {
 		nMain = 3
@@ -540,6 +550,27 @@ func genGapRun(r *Rng, spec *RunSpec, storm bool) {
 		}
 		spec.Docs = append(spec.Docs, []byte(d))
 	}
+	if rw := r.Split("wrap16"); !storm && rw.Chance(1, 8) {
+		// a 15- or 16-bit counter of walks / renders / parses: one tree is rendered, then
+		// (about) 2^15 or 2^16 minimal calls follow - renders of one tiny pooled tree (one walk
+		// each, no parse) or conversions of a tiny document - then the old tree is rendered
+		// again and its document converted again
+		g := pick(rw, []int{1 << 15, 1 << 16, 1 << 16}) + rw.Intn(24) - 16
+		filler := nMain + rw.Intn(nFill)
+		ops := []Op{{Kind: "Parse", Doc: 0, Tree: 0}, {Kind: "Render", Tree: 0, Stack: "W1"}, {Kind: "Parse", Doc: filler, Tree: 1}}
+		byRender := rw.Chance(2, 3)
+		for i := 0; i < g; i++ {
+			if byRender {
+				ops = append(ops, Op{Kind: "Render", Tree: 1, Stack: "W3"})
+			} else {
+				ops = append(ops, Op{Kind: "Convert", Doc: filler, Stack: "W3"})
+			}
+		}
+		ops = append(ops, Op{Kind: "Render", Tree: 0, Stack: "W1"}, Op{Kind: "Convert", Doc: 0, Stack: "W1"}, Op{Kind: "Render", Tree: 0, Stack: "W3"})
+		spec.Clients = [][]Op{ops}
+		spec.Note = "gap run, 2^15 / 2^16 minimal calls"
+		return
+	}
 	var ops []Op
 	use := func(d int) {
 		switch r.Intn(4) {
@@ -551,6 +582,11 @@ func genGapRun(r *Rng, spec *RunSpec, storm bool) {
 	}
 	budget := 1400
 	gaps := gapSizes
+	if thorough && r.Split("long-gaps").Chance(1, 3) {
+		// thorough tier: 10-, 11- and 12-bit counters, tables of 1024 / 4096 entries
+		budget = 9500
+		gaps = []int{1022, 1023, 1024, 1025, 1026, 2047, 2048, 2049, 4094, 4095, 4096, 4097, 4098}
+	}
 	for rounds := r.Range(2, 6); rounds > 0 && len(ops) < budget; rounds-- {
 		for d := 0; d < nMain; d++ {
 			use(d)
@@ -651,6 +687,8 @@ func histWorker(p *histParams, st *Stats) {
 		spec := genHistSpec(p, c, run)
 		if p.ctl == nil {
 			switch {
+			case strings.HasPrefix(spec.Note, "gap run, 2^15"):
+				st.Inc("probe.gap_runs_of_2^15_or_2^16_calls")
 			case strings.HasPrefix(spec.Note, "gap run, storm"):
 				st.Inc("probe.gap_runs_storm_of_failing_calls")
 			case strings.HasPrefix(spec.Note, "gap run"):
